@@ -1048,3 +1048,586 @@ Proof.
     rewrite (interp_from_ext _ _ _ _ t Hab Hrest).
     apply abs_level_from_correct; auto. rewrite Hx. lra.
 Qed.
+(* ================================================================ the characteristic-point sweep: residual lists *)
+Definition Bq (c : pt) : Q := minus_length c.
+Definition Dq (c : pt) : Q := birth_plus_deaths c.
+Definition Tq (t : Q) (c : pt) : Q := tentr (Bq c, Dq c) t.
+Definition Vq (t : Q) (l : list pt) : list Q := map (Tq t) l.
+Definition envq (t : Q) (l : list pt) : Q := fold_right qmax 0 (Vq t l).
+Definition lexle (a b : pt) : Prop := Bq a < Bq b \/ (Bq a == Bq b /\ Dq b <= Dq a).
+Definition lexsorted (l : list pt) : Prop := StronglySorted lexle l.
+Definition PermZ (l l' : list Q) : Prop := exists n n', Permutation (repeat 0 n ++ l) (repeat 0 n' ++ l').
+
+Lemma lexle_trans : forall a b c, lexle a b -> lexle b c -> lexle a c.
+Proof. unfold lexle; intros a b c [H|[H1 H2]] [H'|[H1' H2']]; [left; lra | left; lra | left; lra | right; split; lra]. Qed.
+Lemma lexle_B : forall a b, lexle a b -> Bq a <= Bq b.
+Proof. unfold lexle; intros a b [H|[H _]]; lra. Qed.
+
+Lemma PermZ_refl : forall l, PermZ l l.
+Proof. intros l; exists O, O; apply Permutation_refl. Qed.
+Lemma PermZ_trans : forall a b c, PermZ a b -> PermZ b c -> PermZ a c.
+Proof.
+  intros a b c [n [n' H]] [m [m' H']]. exists (m + n)%nat, (n' + m')%nat.
+  rewrite !repeat_app, <- !app_assoc.
+  eapply perm_trans; [apply Permutation_app_head; exact H|].
+  eapply perm_trans; [apply Permutation_app_swap_app|].
+  apply Permutation_app_head; exact H'.
+Qed.
+Lemma PermZ_perm : forall a b, Permutation a b -> PermZ a b.
+Proof. intros a b H; exists O, O; exact H. Qed.
+Lemma PermZ_cons : forall x a b, PermZ a b -> PermZ (x :: a) (x :: b).
+Proof.
+  intros x a b [n [n' H]]; exists n, n'.
+  eapply perm_trans; [apply Permutation_sym; apply Permutation_middle|].
+  eapply perm_trans; [apply perm_skip; exact H|]. apply Permutation_middle.
+Qed.
+Lemma PermZ_app_tail : forall a b x, PermZ a b -> PermZ (a ++ x) (b ++ x).
+Proof. intros a b x [n [n' H]]; exists n, n'. rewrite !app_assoc. apply Permutation_app_tail; exact H. Qed.
+Lemma PermZ_zero : forall a, PermZ (0 :: a) a.
+Proof. intros a; exists O, 1%nat; apply Permutation_refl. Qed.
+
+Lemma Tq_reduced : forall t c, reduced (Tq t c).
+Proof. intros; exists (tent (Bq c, Dq c) t); reflexivity. Qed.
+Lemma Tq_nonneg : forall t c, 0 <= Tq t c.
+Proof. intros; apply tentr_nonneg. Qed.
+Lemma zero_reduced : reduced 0.
+Proof. exists 0; reflexivity. Qed.
+
+Lemma nth_app_zeros : forall (s : list Q) n k, nth k (s ++ repeat 0 n) 0 = nth k s 0.
+Proof.
+  intros s n k. destruct (Nat.lt_ge_cases k (length s)) as [H|H].
+  - apply app_nth1; auto.
+  - rewrite app_nth2 by auto. rewrite (nth_overflow s) by auto. apply nth_repeat.
+Qed.
+
+Lemma sorted_app_zeros : forall s n, StronglySorted geq s -> (forall x, In x s -> 0 <= x) -> StronglySorted geq (s ++ repeat 0 n).
+Proof.
+  intros s n H; induction H as [|a s Hs IH Hall]; intros Hpos; simpl.
+  - induction n; simpl; constructor; auto. apply Forall_forall; intros x Hx; apply repeat_spec in Hx; subst; unfold geq; apply Qle_refl.
+  - constructor; [apply IH; intros; apply Hpos; right; auto|].
+    apply Forall_app; split; auto. apply Forall_forall; intros x Hx; apply repeat_spec in Hx; subst. unfold geq; apply Hpos; left; auto.
+Qed.
+
+(* a value list that is, up to zeros, a maximum e followed by l' : the sorted lists are shifted by one *)
+Lemma PermZ_top : forall l e l', PermZ l (e :: l') ->
+  (forall x, In x l -> reduced x /\ 0 <= x) -> (forall x, In x l' -> reduced x /\ 0 <= x /\ x <= e) -> reduced e -> 0 <= e ->
+  nth 0 (sort_desc l) 0 = e /\ forall k, nth (S k) (sort_desc l) 0 = nth k (sort_desc l') 0.
+Proof.
+  intros l e l' [n [n' HP]] Hl Hl' He He0.
+  assert (E : sort_desc l ++ repeat 0 n = (e :: sort_desc l') ++ repeat 0 n').
+  { apply sorted_perm_unique.
+    - apply sorted_app_zeros; [apply sort_desc_sorted|]. intros x Hx. apply (Permutation_in _ (sort_desc_perm _)) in Hx. apply Hl; auto.
+    - apply sorted_app_zeros.
+      + constructor; [apply sort_desc_sorted|]. apply Forall_forall; intros x Hx.
+        apply (Permutation_in _ (sort_desc_perm _)) in Hx. unfold geq; apply Hl'; auto.
+      + intros x [Hx|Hx]; [subst; auto|]. apply (Permutation_in _ (sort_desc_perm _)) in Hx. apply Hl'; auto.
+    - eapply perm_trans; [apply Permutation_app_comm|].
+      eapply perm_trans; [apply Permutation_app_head; apply sort_desc_perm|].
+      eapply perm_trans; [exact HP|].
+      eapply perm_trans; [apply Permutation_app_comm|]. simpl. apply perm_skip.
+      apply Permutation_app_tail. apply Permutation_sym; apply sort_desc_perm.
+    - intros x Hx. apply in_app_or in Hx. destruct Hx as [Hx|Hx].
+      + apply (Permutation_in _ (sort_desc_perm _)) in Hx. apply Hl; auto.
+      + apply repeat_spec in Hx; subst; apply zero_reduced. }
+  split.
+  - rewrite <- (nth_app_zeros (sort_desc l) n 0), E. reflexivity.
+  - intros k. rewrite <- (nth_app_zeros (sort_desc l) n (S k)), E. simpl. apply nth_app_zeros.
+Qed.
+
+Lemma ml_eq : forall c, minus_length c == fst c - snd c. Proof. intros; unfold minus_length; apply rsub_eq. Qed.
+Lemma bpd_eq : forall c, birth_plus_deaths c == fst c + snd c. Proof. intros; unfold birth_plus_deaths; apply radd_eq. Qed.
+Lemma tent_ext : forall b d b' d' t, b == b' -> d == d' -> tent (b, d) t == tent (b', d') t.
+Proof. intros b d b' d' t H H0; unfold tent, qmax, qmin; simpl. qcases; lra. Qed.
+Lemma Tq_ext : forall t a b, Bq a == Bq b -> Dq a == Dq b -> Tq t a = Tq t b.
+Proof. intros t a b H H0; unfold Tq, tentr. apply Qred_complete. apply tent_ext; auto. Qed.
+Lemma Tq_tent : forall t c, Tq t c == tent (Bq c, Dq c) t.
+Proof. intros; unfold Tq, tentr; apply Qred_correct. Qed.
+Lemma reduced_eq : forall x y, reduced x -> reduced y -> x == y -> x = y.
+Proof. intros x y Hx Hy H; apply reduced_antisym; auto; rewrite H; apply Qle_refl. Qed.
+Lemma qmax_reduced : forall a b, reduced a -> reduced b -> reduced (qmax a b).
+Proof. intros a b Ha Hb; destruct (qmax_case a b) as [E|E]; rewrite E; auto. Qed.
+Lemma qmin_case : forall a b, qmin a b = a \/ qmin a b = b.
+Proof. intros a b; unfold qmin; destruct (Qle_bool a b); auto. Qed.
+Lemma Tq_le_death : forall t c, Tq t c <= qmax 0 (Dq c - t).
+Proof. intros; rewrite Tq_tent. unfold tent, qmax, qmin; simpl. qcases; lra. Qed.
+Lemma Tq_le_birth : forall t c, Tq t c <= qmax 0 (t - Bq c).
+Proof. intros; rewrite Tq_tent. unfold tent, qmax, qmin; simpl. qcases; lra. Qed.
+Lemma Tq_nested : forall t a b, Bq a <= Bq b -> Dq b <= Dq a -> Tq t b <= Tq t a.
+Proof. intros; rewrite !Tq_tent. apply tent_nested_le; auto. Qed.
+Lemma qmax_mono_r : forall a b, a <= b -> qmax 0 a <= qmax 0 b.
+Proof. intros a b H; unfold qmax; qcases; lra. Qed.
+
+Lemma qmin_glb : forall a b c, c <= a -> c <= b -> c <= qmin a b.
+Proof. intros a b c Ha Hb; unfold qmin; destruct (Qle_bool a b); auto. Qed.
+Global Instance qmin_comp : Proper (Qeq ==> Qeq ==> Qeq) qmin.
+Proof.
+  intros a a' Ha b b' Hb. apply Qle_antisym; apply qmin_glb.
+  - rewrite <- Ha; apply qmin_le_l. - rewrite <- Hb; apply qmin_le_r.
+  - rewrite Ha; apply qmin_le_l. - rewrite Hb; apply qmin_le_r.
+Qed.
+(* the characteristic point pushed to the next level when c crosses the last peak L *)
+Definition cross_point (L c : pt) : pt :=
+  (rdiv (minus_length c + birth_plus_deaths L) 2, rdiv (birth_plus_deaths L - minus_length c) 2).
+Lemma cross_point_B : forall L c, Bq (cross_point L c) == Bq c.
+Proof. intros; unfold Bq, cross_point. rewrite ml_eq; simpl. rewrite !rdiv_eq. field. Qed.
+Lemma cross_point_D : forall L c, Dq (cross_point L c) == Dq L.
+Proof. intros; unfold Dq, cross_point. rewrite bpd_eq; simpl. rewrite !rdiv_eq. field. Qed.
+
+(* value invariant of the sweep at a fixed abscissa t: S = characteristic points consumed so far, L = last peak *)
+Definition ValInv (t : Q) (S : list pt) (L : pt) (newc : list pt) : Prop :=
+  exists e, reduced e /\ 0 <= e /\ (forall s, In s S -> Tq t s <= e) /\ e <= qmax 0 (Dq L - t) /\
+            (forall n, In n newc -> Tq t n <= e) /\ PermZ (Vq t S) (e :: Vq t newc).
+
+Lemma Vq_app : forall t a b, Vq t (a ++ b) = Vq t a ++ Vq t b.
+Proof. intros; unfold Vq; apply map_app. Qed.
+
+(* a nested point is skipped: it goes to the next level unchanged *)
+Lemma ValInv_skip : forall t S L newc c, ValInv t S L newc -> In L S -> Bq L <= Bq c -> Dq c <= Dq L ->
+  ValInv t (S ++ [c]) L (newc ++ [c]).
+Proof.
+  intros t S L newc c [e [He [He0 [HS [Hb [Hn HP]]]]]] HL HB HD. exists e.
+  assert (Hc : Tq t c <= e) by (eapply Qle_trans; [apply Tq_nested; eauto | apply HS; auto]).
+  repeat split; auto.
+  - intros s Hs; apply in_app_or in Hs; destruct Hs as [Hs|[Hs|[]]]; [auto | subst; auto].
+  - intros n Hn'; apply in_app_or in Hn'; destruct Hn' as [Hn'|[Hn'|[]]]; [auto | subst; auto].
+  - rewrite !Vq_app. change (e :: Vq t newc ++ Vq t [c]) with ((e :: Vq t newc) ++ Vq t [c]). apply PermZ_app_tail; auto.
+Qed.
+(* points nested in the new peak c are appended to both lists *)
+Lemma ValInv_nested_tail : forall t S c newc X, In c S ->
+  (forall x, In x X -> Bq c <= Bq x /\ Dq x <= Dq c) -> forall Y Z, Y ++ Z = X ->
+  forall mid, ValInv t S c (newc ++ mid) -> ValInv t (S ++ X) c (newc ++ Y ++ mid ++ Z).
+Proof.
+  intros t S c newc X Hc HX Y Z HYZ mid [e [He [He0 [HS [Hb [Hn HP]]]]]]. exists e.
+  assert (HXe : forall x, In x X -> Tq t x <= e).
+  { intros x Hx. destruct (HX x Hx). eapply Qle_trans; [apply Tq_nested; eauto | apply HS; auto]. }
+  repeat split; auto.
+  - intros s Hs; apply in_app_or in Hs; destruct Hs; auto.
+  - intros n Hn'. apply in_app_or in Hn'. destruct Hn' as [Hn'|Hn']; [apply Hn; apply in_or_app; auto|].
+    apply in_app_or in Hn'. destruct Hn' as [Hn'|Hn']; [apply HXe; subst X; apply in_or_app; auto|].
+    apply in_app_or in Hn'. destruct Hn' as [Hn'|Hn']; [apply Hn; apply in_or_app; auto | apply HXe; subst X; apply in_or_app; auto].
+  - subst X. rewrite !Vq_app in *.
+    eapply PermZ_trans; [apply PermZ_app_tail; exact HP|].
+    apply PermZ_perm. simpl. apply perm_skip. rewrite <- !app_assoc. apply Permutation_app_head.
+    apply Permutation_app_swap_app.
+Qed.
+
+(* crossing: c becomes the new peak, the intersection point carries the minimum to the next level *)
+Lemma ValInv_cross : forall t S L newc c, ValInv t S L newc -> In L S -> Bq L <= Bq c -> Dq L <= Dq c ->
+  ValInv t (S ++ [c]) c (newc ++ [cross_point L c]).
+Proof.
+  intros t S L newc c [e [He [He0 [HS [Hb [Hn HP]]]]]] HL HB HD.
+  set (Tc := Tq t c).
+  assert (HTP : Tq t (cross_point L c) = qmin e Tc).
+  { apply reduced_eq; [apply Tq_reduced | destruct (qmin_case e Tc) as [E|E]; rewrite E; [auto | apply Tq_reduced] |].
+    rewrite Tq_tent. unfold Tc. rewrite (Tq_tent t c).
+    rewrite (tent_ext _ _ (Bq c) (Dq L) t (cross_point_B L c) (cross_point_D L c)).
+    symmetry. apply (sweep_step_min e (Bq L) (Dq L) (Bq c) (Dq c) t); auto.
+    rewrite <- Tq_tent. apply HS; auto. }
+  exists (qmax e Tc).
+  split; [apply qmax_reduced; [auto | apply Tq_reduced]|].
+  split; [eapply Qle_trans; [exact He0 | apply qmax_le_l]|].
+  split.
+  { intros s Hs; apply in_app_or in Hs; destruct Hs as [Hs|[Hs|[]]].
+    - eapply Qle_trans; [apply HS; auto | apply qmax_le_l].
+    - subst s. apply qmax_le_r. }
+  split.
+  { apply qmax_lub.
+    - eapply Qle_trans; [exact Hb|]. apply qmax_mono_r. lra.
+    - apply Tq_le_death. }
+  split.
+  { intros n Hn'; apply in_app_or in Hn'; destruct Hn' as [Hn'|[Hn'|[]]].
+    - eapply Qle_trans; [apply Hn; auto | apply qmax_le_l].
+    - subst n. rewrite HTP. eapply Qle_trans; [apply qmin_le_l | apply qmax_le_l]. }
+  rewrite !Vq_app. simpl Vq. fold Tc. rewrite HTP.
+  eapply PermZ_trans; [apply PermZ_app_tail; exact HP|].
+  apply PermZ_perm. simpl.
+  eapply perm_trans; [apply perm_skip; apply Permutation_sym; apply Permutation_cons_append|].
+  eapply perm_trans; [|apply perm_skip; apply Permutation_cons_append].
+  unfold qmax, qmin. destruct (Qle_bool e Tc); [apply perm_swap | apply Permutation_refl].
+Qed.
+(* disjoint (or touching): c becomes the new peak, nothing is handed on *)
+Lemma ValInv_disjoint : forall t S L newc c, ValInv t S L newc -> In L S -> Dq L <= Bq c -> Bq c <= Dq c ->
+  ValInv t (S ++ [c]) c newc.
+Proof.
+  intros t S L newc c [e [He [He0 [HS [Hb [Hn HP]]]]]] HL HD Hv.
+  set (Tc := Tq t c).
+  assert (Hmin : qmin e Tc = 0).
+  { apply reduced_eq; [destruct (qmin_case e Tc) as [E|E]; rewrite E; [auto | apply Tq_reduced] | apply zero_reduced |].
+    pose proof (Tq_le_birth t c) as H1. pose proof (Tq_nonneg t c) as H2. fold Tc in H1, H2.
+    revert Hb H1. unfold qmin, qmax. qcases; intros; lra. }
+  exists (qmax e Tc).
+  split; [apply qmax_reduced; [auto | apply Tq_reduced]|].
+  split; [eapply Qle_trans; [exact He0 | apply qmax_le_l]|].
+  split.
+  { intros s Hs; apply in_app_or in Hs; destruct Hs as [Hs|[Hs|[]]].
+    - eapply Qle_trans; [apply HS; auto | apply qmax_le_l].
+    - subst s. apply qmax_le_r. }
+  split.
+  { apply qmax_lub; [|apply Tq_le_death].
+    eapply Qle_trans; [exact Hb|]. apply qmax_mono_r. lra. }
+  split.
+  { intros n Hn'. eapply Qle_trans; [apply Hn; auto | apply qmax_le_l]. }
+  rewrite !Vq_app. simpl Vq. fold Tc.
+  eapply PermZ_trans; [apply PermZ_app_tail; exact HP|].
+  eapply PermZ_trans; [apply PermZ_perm; simpl; apply perm_skip; apply Permutation_sym; apply Permutation_cons_append|].
+  eapply PermZ_trans; [|apply PermZ_cons; apply PermZ_zero].
+  rewrite <- Hmin. apply PermZ_perm.
+  unfold qmax, qmin. destruct (Qle_bool e Tc); [apply perm_swap | apply Permutation_refl].
+Qed.
+
+(* ---------------- sorted lists as sets of ordered pairs *)
+Section SS.
+  Variable A : Type.
+  Variable R : A -> A -> Prop.
+  Lemma SS_app_inv : forall a b, StronglySorted R (a ++ b) ->
+    StronglySorted R a /\ StronglySorted R b /\ (forall x y, In x a -> In y b -> R x y).
+  Proof.
+    induction a as [|h a IH]; intros b H; simpl in *.
+    - repeat split; auto. constructor. intros x y [].
+    - inversion H as [|? ? Hs Hall]; subst. destruct (IH b Hs) as [Ha [Hb Hc]].
+      rewrite Forall_forall in Hall. repeat split; auto.
+      + constructor; auto. apply Forall_forall; intros x Hx; apply Hall; apply in_or_app; auto.
+      + intros x y [Hx|Hx] Hy; [subst; apply Hall; apply in_or_app; auto | apply Hc; auto].
+  Qed.
+  Lemma SS_app_intro : forall a b, StronglySorted R a -> StronglySorted R b -> (forall x y, In x a -> In y b -> R x y) ->
+    StronglySorted R (a ++ b).
+  Proof.
+    induction a as [|h a IH]; intros b Ha Hb Hc; simpl; auto.
+    inversion Ha as [|? ? Hs Hall]; subst. constructor.
+    - apply IH; auto. intros x y Hx Hy; apply Hc; [right|]; auto.
+    - rewrite Forall_forall in *. intros x Hx. apply in_app_or in Hx. destruct Hx; [apply Hall; auto | apply Hc; [left|]; auto].
+  Qed.
+  Lemma SS_cons_inv : forall h l, StronglySorted R (h :: l) -> StronglySorted R l /\ forall y, In y l -> R h y.
+  Proof. intros h l H; inversion H as [|? ? Hs Hall]; subst; split; auto. rewrite Forall_forall in Hall; auto. Qed.
+End SS.
+Arguments SS_app_inv {A R}. Arguments SS_app_intro {A R}. Arguments SS_cons_inv {A R}.
+
+(* ---------------- the two inner loops *)
+Definition eqb_cond (point c : pt) : bool :=
+  almost_equal (minus_length point) (minus_length c) && Qle_bool (birth_plus_deaths point) (birth_plus_deaths c).
+Definition dom_cond (point c : pt) : bool :=
+  Qle_bool (minus_length point) (minus_length c) && Qle_bool (birth_plus_deaths c) (birth_plus_deaths point).
+Lemma take_eq_birth_spec : forall point l acc acc' l', take_eq_birth point l acc = (acc', l') ->
+  exists taken, acc' = acc ++ taken /\ l = taken ++ l' /\ (forall c, In c taken -> eqb_cond point c = true) /\
+    match l' with [] => True | x :: _ => eqb_cond point x = false end.
+Proof.
+  induction l as [|c l IH]; intros acc acc' l' H; simpl in H.
+  - inversion H; subst. exists []. rewrite app_nil_r. repeat split; auto; try (intros ? []).
+  - fold (eqb_cond point c) in H. destruct (eqb_cond point c) eqn:E.
+    + destruct (IH _ _ _ H) as [tk [H1 [H2 [H3 H4]]]]. exists (c :: tk). subst. rewrite <- app_assoc. simpl.
+      repeat split; auto. intros x [Hx|Hx]; [subst; auto | auto].
+    + inversion H; subst. exists []. rewrite app_nil_r. repeat split; auto; try (intros ? []).
+Qed.
+Lemma take_dominated_spec : forall point l acc acc' l', take_dominated point l acc = (acc', l') ->
+  exists taken, acc' = acc ++ taken /\ l = taken ++ l' /\ (forall c, In c taken -> dom_cond point c = true) /\
+    match l' with [] => True | x :: _ => dom_cond point x = false end.
+Proof.
+  induction l as [|c l IH]; intros acc acc' l' H; simpl in H.
+  - inversion H; subst. exists []. rewrite app_nil_r. repeat split; auto; try (intros ? []).
+  - fold (dom_cond point c) in H. destruct (dom_cond point c) eqn:E.
+    + destruct (IH _ _ _ H) as [tk [H1 [H2 [H3 H4]]]]. exists (c :: tk). subst. rewrite <- app_assoc. simpl.
+      repeat split; auto. intros x [Hx|Hx]; [subst; auto | auto].
+    + inversion H; subst. exists []. rewrite app_nil_r. repeat split; auto; try (intros ? []).
+Qed.
+
+Lemma Qlt_bool_iff'' : forall a b, Qlt_bool a b = true <-> a < b.
+Proof.
+  intros a b; unfold Qlt_bool; split; intro H.
+  - destruct (Qle_bool b a) eqn:E; [discriminate|]. apply Qle_bool_false in E; auto.
+  - destruct (Qle_bool b a) eqn:E; auto. apply Qle_bool_iff in E. lra.
+Qed.
+Lemma almost_equal_comp : forall a a' b b', a == a' -> b == b' -> almost_equal a b = almost_equal a' b'.
+Proof.
+  intros a a' b b' Ha Hb. unfold almost_equal, Qlt_bool. f_equal.
+  assert (E : qabs (a - b) == qabs (a' - b')) by (rewrite Ha, Hb; reflexivity). rewrite E. reflexivity.
+Qed.
+Definition epssep (l : list pt) : Prop := forall a b, In a l -> In b l -> almost_equal (Bq a) (Bq b) = true -> Bq a == Bq b.
+Definition validl (l : list pt) : Prop := forall c, In c l -> Bq c <= Dq c.
+
+Lemma lastpt_app1 : forall l a, lastpt (l ++ [a]) = a.
+Proof. intros; unfold lastpt; apply last_last. Qed.
+Lemma lastpt_app2 : forall l a b, lastpt (l ++ [a; b]) = b.
+Proof. intros. change [a; b] with ([a] ++ [b]). rewrite app_assoc. apply lastpt_app1. Qed.
+Lemma lastpt_app3 : forall l a b c, lastpt (l ++ [a; b; c]) = c.
+Proof. intros. change [a; b; c] with ([a; b] ++ [c]). rewrite app_assoc. apply lastpt_app1. Qed.
+Lemma lexle_of_bounds : forall p x, Bq p <= Bq x -> Dq x <= Dq p -> lexle p x.
+Proof. intros p x H1 H2. unfold lexle. destruct (Qlt_le_dec (Bq p) (Bq x)); [left; auto | right; split; lra]. Qed.
+
+Section Sweep.
+  Variable cps : list pt.
+  Hypothesis Heps : epssep cps.
+
+  Definition LoopInv (lam newc rest S : list pt) : Prop :=
+    S ++ rest = cps /\ In (lastpt lam) S /\ (forall r, In r rest -> lexle (lastpt lam) r) /\ lexsorted (newc ++ rest) /\
+    validl rest /\ (forall n, In n newc -> Bq n <= Dq n /\ exists c, In c cps /\ Bq n == Bq c) /\
+    forall t, ValInv t S (lastpt lam) newc.
+
+  Lemma sweep_level_inv : forall fuel lam newc rest S lam' newc',
+    sweep_level fuel lam newc rest = Some (lam', newc') -> LoopInv lam newc rest S -> LoopInv lam' newc' [] cps.
+  Proof.
+    induction fuel as [|fuel IH]; intros lam newc rest S lam' newc' H Inv; [discriminate|].
+    cbn [sweep_level] in H. destruct rest as [|c tl].
+    - inversion H; subst. destruct Inv as [I0 I]. rewrite app_nil_r in I0. subst S. split; [apply app_nil_r | exact I].
+    - destruct Inv as [I0 [I1 [I2 [I3 [I4 [I5 I6]]]]]].
+      set (L := lastpt lam) in *.
+      assert (HLc : lexle L c) by (apply I2; left; auto).
+      assert (HB : Bq L <= Bq c) by (apply lexle_B; auto).
+      assert (Hc_in : In c cps) by (rewrite <- I0; apply in_or_app; right; left; auto).
+      assert (Htl_in : forall x, In x tl -> In x cps) by (intros x Hx; rewrite <- I0; apply in_or_app; right; right; auto).
+      destruct (SS_app_inv _ _ I3) as [Sn [Sctl Cross]].
+      destruct (SS_cons_inv _ _ Sctl) as [Stl Hctl].
+      assert (Hvc : Bq c <= Dq c) by (apply I4; left; auto).
+      assert (E1 : Qle_bool (minus_length L) (minus_length c) = true) by (apply Qle_bool_iff; exact HB).
+      rewrite E1 in H. simpl andb in H.
+      destruct (Qlt_bool (birth_plus_deaths L) (birth_plus_deaths c)) eqn:E2.
+      + apply Qlt_bool_iff'' in E2. fold (Dq L) (Dq c) in E2.
+        destruct (Qlt_bool (minus_length c) (birth_plus_deaths L)) eqn:E3.
+        * (* crossing *)
+          apply Qlt_bool_iff'' in E3. fold (Bq c) (Dq L) in E3.
+          fold (cross_point L c) in H. set (P := cross_point L c) in *.
+          destruct (take_eq_birth P tl newc) as [new1 l1] eqn:T1. cbv beta iota zeta in H.
+          match type of H with context [take_dominated ?a ?b ?c] => destruct (take_dominated a b c) as [new3 l2] eqn:T2 end.
+          destruct (take_eq_birth_spec _ _ _ _ _ T1) as [tk1 [N1 [L1 [C1 Stop1]]]].
+          destruct (take_dominated_spec _ _ _ _ _ T2) as [tk2 [N3 [L2 [C2 Stop2]]]].
+          subst new1 new3 l1 tl.
+          pose proof (cross_point_B L c) as PB. pose proof (cross_point_D L c) as PD. fold P in PB, PD.
+          destruct (SS_app_inv _ _ Stl) as [Stk1 [Sl1 Cross1]].
+          destruct (SS_app_inv _ _ Sl1) as [Stk2 [Sl2 Cross2]].
+          (* facts about the taken points *)
+          assert (F1 : forall x, In x tk1 -> Bq x == Bq c /\ Dq P <= Dq x /\ Dq x <= Dq c).
+          { intros x Hx. specialize (C1 x Hx). unfold eqb_cond in C1. apply andb_prop in C1. destruct C1 as [A1 A2].
+            apply Qle_bool_iff in A2. fold (Dq P) (Dq x) in A2. fold (Bq P) (Bq x) in A1.
+            assert (Hx_in : In x cps) by (apply Htl_in; apply in_or_app; auto).
+            assert (Hcx : lexle c x) by (apply Hctl; apply in_or_app; auto).
+            assert (Ecx : Bq c == Bq x).
+            { apply Heps; auto. rewrite <- (almost_equal_comp _ _ _ _ PB (Qeq_refl (Bq x))). exact A1. }
+            repeat split; auto; [lra|]. destruct Hcx as [Hlt|[_ Hd]]; [lra | auto]. }
+          assert (F2 : forall x, In x tk2 -> Bq P <= Bq x /\ Dq x <= Dq P).
+          { intros x Hx. specialize (C2 x Hx). unfold dom_cond in C2. apply andb_prop in C2. destruct C2 as [A1 A2].
+            apply Qle_bool_iff in A1. apply Qle_bool_iff in A2. split; auto. }
+          assert (F3 : forall x, In x l2 -> lexle P x).
+          { destruct l2 as [|x0 l2']; [intros x []|].
+            assert (Hx0 : lexle P x0).
+            { assert (Hcx0 : lexle c x0) by (apply Hctl; apply in_or_app; right; apply in_or_app; right; left; auto).
+              assert (HBx0 : Bq P <= Bq x0) by (rewrite PB; apply lexle_B; auto).
+              assert (HDx0 : Dq P < Dq x0).
+              { unfold dom_cond in Stop2. apply Qle_bool_iff in HBx0. fold (Bq P) (Bq x0) in Stop2. rewrite HBx0 in Stop2.
+                simpl in Stop2. apply Qle_bool_false in Stop2. exact Stop2. }
+              left. destruct (Qlt_le_dec (Bq P) (Bq x0)) as [|Hle]; auto. exfalso.
+              assert (EB : Bq P == Bq x0) by lra.
+              destruct tk2 as [|y tk2'].
+              - simpl in Stop1. unfold eqb_cond in Stop1. fold (Bq P) (Bq x0) (Dq P) (Dq x0) in Stop1.
+                rewrite (almost_equal_refl _ _ EB) in Stop1. simpl in Stop1. apply Qle_bool_false in Stop1. lra.
+              - destruct (F2 y ltac:(left; auto)) as [Gy1 Gy2].
+                assert (Hyx0 : lexle y x0) by (apply Cross2; [left; auto | left; auto]).
+                assert (Hcy : lexle c y) by (apply Hctl; apply in_or_app; right; left; auto).
+                pose proof (lexle_B _ _ Hcy). destruct Hyx0 as [Hlt|[_ Hd]]; lra. }
+            intros x [Hx|Hx]; [subst; auto|]. eapply lexle_trans; [exact Hx0|].
+            destruct (SS_cons_inv _ _ Sl2) as [_ Hx0l]. apply Hx0l; auto. }
+          apply (IH _ _ _ (S ++ c :: tk1 ++ tk2) _ _ H). unfold LoopInv. rewrite lastpt_app2.
+          split; [rewrite <- I0; rewrite <- !app_assoc; simpl; rewrite <- !app_assoc; reflexivity|].
+          split; [apply in_or_app; right; left; auto|].
+          split; [intros r Hr; apply Hctl; apply in_or_app; right; apply in_or_app; right; auto|].
+          split.
+          { rewrite <- !app_assoc. cbn [app]. rewrite (app_assoc newc tk1).
+            apply SS_app_intro.
+            - apply SS_app_intro; [exact Sn | exact Stk1 |]. intros x y Hx Hy. apply Cross; auto. right. apply in_or_app; auto.
+            - constructor; auto. apply Forall_forall. intros x Hx. apply in_app_or in Hx. destruct Hx as [Hx|Hx]; [|apply F3; auto].
+              destruct (F2 x Hx). apply lexle_of_bounds; auto.
+            - intros x y Hx Hy. apply in_app_or in Hx. destruct Hy as [Hy|Hy].
+              + subst y. destruct Hx as [Hx|Hx].
+                * assert (Hxc : lexle x c) by (apply Cross; [auto | left; auto]).
+                  destruct Hxc as [Hlt|[He Hd]]; [left; lra | right; split; lra].
+                * destruct (F1 x Hx) as [G1 [G2 G3]]. right; split; lra.
+              + destruct Hx as [Hx|Hx].
+                * apply Cross; auto. right. apply in_or_app; right; auto.
+                * apply Cross1; auto. }
+          split; [intros x Hx; apply I4; right; apply in_or_app; right; apply in_or_app; right; auto|].
+          split.
+          { intros n Hn. rewrite <- !app_assoc in Hn. apply in_app_or in Hn. destruct Hn as [Hn|Hn]; [apply I5; auto|].
+            apply in_app_or in Hn. destruct Hn as [Hn|Hn].
+            - split; [apply I4; right; apply in_or_app; auto | exists n; split; [apply Htl_in; apply in_or_app; auto | reflexivity]].
+            - destruct Hn as [Hn|Hn].
+              + subst n. split; [lra | exists c; split; auto].
+              + split; [apply I4; right; apply in_or_app; right; apply in_or_app; auto |
+                        exists n; split; [apply Htl_in; apply in_or_app; right; apply in_or_app; auto | reflexivity]]. }
+          intros t.
+          replace (S ++ c :: tk1 ++ tk2) with ((S ++ [c]) ++ (tk1 ++ tk2)) by (rewrite <- app_assoc; reflexivity).
+          rewrite <- (app_assoc (newc ++ tk1) _ tk2), <- (app_assoc newc tk1 _).
+          apply ValInv_nested_tail with (X := tk1 ++ tk2); auto.
+          -- apply in_or_app; right; left; auto.
+          -- intros x Hx. apply in_app_or in Hx. destruct Hx as [Hx|Hx].
+             ++ destruct (F1 x Hx) as [G1 [G2 G3]]. split; lra.
+             ++ destruct (F2 x Hx) as [G1 G2]. split; lra.
+          -- apply ValInv_cross; auto. lra.
+        * (* disjoint or touching *)
+          assert (E3' : Dq L <= Bq c).
+          { destruct (Qlt_le_dec (Bq c) (Dq L)) as [Hlt|]; auto. apply Qlt_bool_iff'' in Hlt. unfold Bq, Dq in Hlt. congruence. }
+          apply (IH _ _ _ (S ++ [c]) _ _ H). unfold LoopInv. rewrite lastpt_app3.
+          split; [rewrite <- I0; rewrite <- app_assoc; reflexivity|].
+          split; [apply in_or_app; right; left; auto|].
+          split; [intros r Hr; apply Hctl; auto|].
+          split; [apply SS_app_intro; auto; intros x y Hx Hy; apply Cross; auto; right; auto|].
+          split; [intros x Hx; apply I4; right; auto|].
+          split; [exact I5|].
+          intros t. apply ValInv_disjoint with (L := L); auto.
+      + (* nested in the last peak: skipped *)
+        assert (E2' : Dq c <= Dq L).
+        { destruct (Qlt_le_dec (Dq L) (Dq c)) as [Hlt|]; auto. apply Qlt_bool_iff'' in Hlt. unfold Dq in Hlt. congruence. }
+        apply (IH _ _ _ (S ++ [c]) _ _ H). unfold LoopInv. fold L.
+        split; [rewrite <- I0; rewrite <- app_assoc; reflexivity|].
+        split; [apply in_or_app; left; auto|].
+        split; [intros r Hr; apply I2; right; auto|].
+        split; [rewrite <- app_assoc; exact I3|].
+        split; [intros x Hx; apply I4; right; auto|].
+        split.
+        { intros n Hn. apply in_app_or in Hn. destruct Hn as [Hn|[Hn|[]]]; [apply I5; auto|].
+          subst n. split; auto. exists c; split; auto. reflexivity. }
+        intros t. apply ValInv_skip; auto.
+  Qed.
+End Sweep.
+
+Lemma Vq_in : forall t l x, In x (Vq t l) -> exists c, In c l /\ x = Tq t c.
+Proof. intros t l x H; unfold Vq in H; apply in_map_iff in H. destruct H as [c [H1 H2]]; exists c; auto. Qed.
+
+(* one level of the sweep: the list handed to the next level is again sorted, valid and epsilon-separated, and its tents
+   carry, at every t, exactly the values of the swept list without the largest one *)
+Theorem one_level_residual : forall cps lam newc, one_level cps = Some (lam, newc) ->
+  lexsorted cps -> validl cps -> epssep cps ->
+  lexsorted newc /\ validl newc /\ epssep newc /\
+  (forall t k, nth (S k) (sort_desc (Vq t cps)) 0 = nth k (sort_desc (Vq t newc)) 0).
+Proof.
+  intros cps lam newc H Hs Hv He. unfold one_level in H. destruct cps as [|c0 tl]; [discriminate|].
+  destruct (sweep_level (S (length (c0 :: tl))) [(- INF, 0); (minus_length c0, 0); c0] [] tl) as [[lam' newc']|] eqn:E; [|discriminate].
+  inversion H; subst newc'. clear H.
+  destruct (SS_cons_inv _ _ Hs) as [Stl Hc0].
+  assert (Inv0 : LoopInv (c0 :: tl) [(- INF, 0); (minus_length c0, 0); c0] [] tl [c0]).
+  { unfold LoopInv. change (lastpt [(- INF, 0); (minus_length c0, 0); c0]) with c0.
+    repeat split; auto.
+    - left; auto.
+    - intros x Hx; apply Hv; right; auto.
+    - destruct H.
+    - destruct H.
+    - intros t. exists (Tq t c0). repeat split.
+      + apply Tq_reduced. + apply Tq_nonneg.
+      + intros s [Hs'|[]]; subst; apply Qle_refl.
+      + apply Tq_le_death.
+      + intros n [].
+      + apply PermZ_refl. }
+  destruct (sweep_level_inv (c0 :: tl) He _ _ _ _ _ _ _ E Inv0) as [_ [_ [_ [I3 [_ [I5 I6]]]]]].
+  rewrite app_nil_r in I3.
+  split; [exact I3|]. split; [intros n Hn; apply I5; auto|].
+  split.
+  { intros a b Ha Hb Hab. destruct (I5 a Ha) as [_ [ca [Hca Ea]]]. destruct (I5 b Hb) as [_ [cb [Hcb Eb]]].
+    rewrite Ea, Eb. apply He; auto. rewrite <- (almost_equal_comp _ _ _ _ Ea Eb). exact Hab. }
+  intros t k. destruct (I6 t) as [e [He1 [He0 [HS [_ [Hn HP]]]]]].
+  apply (PermZ_top _ e _ HP); auto.
+  - intros x Hx. destruct (Vq_in _ _ _ Hx) as [c [_ Hc]]; subst. split; [apply Tq_reduced | apply Tq_nonneg].
+  - intros x Hx. destruct (Vq_in _ _ _ Hx) as [c [Hc1 Hc]]; subst. repeat split; [apply Tq_reduced | apply Tq_nonneg | apply Hn; auto].
+Qed.
+
+(* the list of characteristic points that reaches level j *)
+Fixpoint residual (j : nat) (cps : list pt) : option (list pt) :=
+  match j with
+  | O => Some cps
+  | S j' => match one_level cps with Some (_, newc) => residual j' newc | None => None end
+  end.
+Theorem residual_values : forall j cps R, residual j cps = Some R -> lexsorted cps -> validl cps -> epssep cps ->
+  (lexsorted R /\ validl R /\ epssep R) /\
+  forall t k, nth (j + k) (sort_desc (Vq t cps)) 0 = nth k (sort_desc (Vq t R)) 0.
+Proof.
+  induction j as [|j IH]; intros cps R H Hs Hv He; simpl in H.
+  - inversion H; subst. repeat split; auto.
+  - destruct (one_level cps) as [[lam newc]|] eqn:E; [|discriminate].
+    destruct (one_level_residual _ _ _ E Hs Hv He) as [Hs' [Hv' [He' Hval]]].
+    destruct (IH _ _ H Hs' Hv' He') as [HR Hk]. split; auto.
+    intros t k. simpl. rewrite Hval. apply Hk.
+Qed.
+
+(* ---------------- from the diagram to the first list of characteristic points *)
+Definition to_cp (b : Q * Q) : pt := (rdiv (fst b + snd b) 2, rdiv (snd b - fst b) 2).
+Lemma to_cp_B : forall b, Bq (to_cp b) == fst b.
+Proof. intros; unfold Bq, to_cp. rewrite ml_eq; simpl. rewrite !rdiv_eq. field. Qed.
+Lemma to_cp_D : forall b, Dq (to_cp b) == snd b.
+Proof. intros; unfold Dq, to_cp. rewrite bpd_eq; simpl. rewrite !rdiv_eq. field. Qed.
+Lemma Vq_to_cp : forall t l, Vq t (map to_cp l) = map (fun bd => tentr bd t) l.
+Proof.
+  intros t l; unfold Vq; rewrite map_map. apply map_ext. intros [b d]. unfold Tq, tentr. apply Qred_complete.
+  apply tent_ext; [apply to_cp_B | apply to_cp_D].
+Qed.
+Definition blex (a b : Q * Q) : Prop := fst a < fst b \/ (fst a == fst b /\ snd b <= snd a).
+Lemma cmp_true : forall y x, compare_points_sorting y x = true -> blex y x.
+Proof.
+  intros y x H; unfold compare_points_sorting in H. unfold blex.
+  destruct (Qlt_bool (fst y) (fst x)) eqn:E1; [apply Qlt_bool_iff'' in E1; left; auto|].
+  destruct (Qlt_bool (fst x) (fst y)) eqn:E2; [discriminate|].
+  apply Qlt_bool_iff'' in H. right.
+  assert (~ fst y < fst x) by (intro G; apply Qlt_bool_iff'' in G; congruence).
+  assert (~ fst x < fst y) by (intro G; apply Qlt_bool_iff'' in G; congruence). split; lra.
+Qed.
+Lemma cmp_false : forall y x, compare_points_sorting y x = false -> blex x y.
+Proof.
+  intros y x H; unfold compare_points_sorting in H. unfold blex.
+  destruct (Qlt_bool (fst y) (fst x)) eqn:E1; [discriminate|].
+  destruct (Qlt_bool (fst x) (fst y)) eqn:E2; [apply Qlt_bool_iff'' in E2; left; auto|].
+  assert (~ fst y < fst x) by (intro G; apply Qlt_bool_iff'' in G; congruence).
+  assert (~ fst x < fst y) by (intro G; apply Qlt_bool_iff'' in G; congruence).
+  assert (~ snd x < snd y) by (intro G; apply Qlt_bool_iff'' in G; congruence). right; split; lra.
+Qed.
+Lemma blex_trans : forall a b c, blex a b -> blex b c -> blex a c.
+Proof. unfold blex; intros a b c [H|[H1 H2]] [H'|[H1' H2']]; [left; lra | left; lra | left; lra | right; split; lra]. Qed.
+Lemma insert_bar_perm : forall x l, Permutation (insert_bar x l) (x :: l).
+Proof.
+  intros x l; induction l as [|y tl IH]; simpl; auto.
+  destruct (compare_points_sorting y x); auto.
+  eapply perm_trans; [apply perm_skip; apply IH | apply perm_swap].
+Qed.
+Lemma sort_bars_perm : forall l, Permutation (sort_bars l) l.
+Proof.
+  induction l as [|x tl IH]; simpl; auto.
+  eapply perm_trans; [apply insert_bar_perm | apply perm_skip; exact IH].
+Qed.
+Lemma insert_bar_sorted : forall x l, StronglySorted blex l -> StronglySorted blex (insert_bar x l).
+Proof.
+  intros x l H; induction H as [|y tl Hs IH Hall]; simpl.
+  - constructor; constructor.
+  - destruct (compare_points_sorting y x) eqn:E.
+    + apply cmp_true in E. constructor; auto.
+      eapply Permutation_Forall; [apply Permutation_sym; apply insert_bar_perm|]. constructor; auto.
+    + apply cmp_false in E. constructor; [constructor; auto|].
+      constructor; auto. eapply Forall_impl; [|exact Hall]. intros z Hz; eapply blex_trans; eauto.
+Qed.
+Lemma sort_bars_sorted : forall l, StronglySorted blex (sort_bars l).
+Proof. induction l; simpl; [constructor | apply insert_bar_sorted; auto]. Qed.
+Lemma lexsorted_map_to_cp : forall l, StronglySorted blex l -> lexsorted (map to_cp l).
+Proof.
+  intros l H; induction H as [|a l Hs IH Hall]; simpl; constructor; auto.
+  rewrite Forall_forall in *. intros x Hx. apply in_map_iff in Hx. destruct Hx as [b [Hb Hin]]; subst.
+  specialize (Hall b Hin). unfold lexle. rewrite !to_cp_B, !to_cp_D. exact Hall.
+Qed.
+
+Definition valid_diagram (D : list (Q * Q)) : Prop := forall bd, In bd D -> fst bd <= snd bd.
+(* births closer than the tolerance epsi of the implementation are equal (true on any lattice coarser than 5e-6) *)
+Definition eps_separated (D : list (Q * Q)) : Prop :=
+  forall a b, In a D -> In b D -> almost_equal (fst a) (fst b) = true -> fst a == fst b.
+Definition first_cps (D : list (Q * Q)) : list pt := map to_cp (sort_bars D).
+
+(* the characteristic points that the sweep hands to level j carry exactly lambda_j, lambda_{j+1}, ...:
+   at every t the k-th largest of their tents is lambda_{j+k}(t) *)
+Theorem sweep_residual_lambda : forall D j R, valid_diagram D -> eps_separated D -> residual j (first_cps D) = Some R ->
+  forall t k, lambda D (j + k) t = nth k (sort_desc (Vq t R)) 0.
+Proof.
+  intros D j R Hv He H t k.
+  assert (Hs : lexsorted (first_cps D)) by (apply lexsorted_map_to_cp; apply sort_bars_sorted).
+  assert (Hin : forall c, In c (first_cps D) -> exists b, In b D /\ c = to_cp b).
+  { intros c Hc. unfold first_cps in Hc. apply in_map_iff in Hc. destruct Hc as [b [Hb Hin]]. exists b; split; auto.
+    eapply Permutation_in; [apply sort_bars_perm | exact Hin]. }
+  assert (Hv' : validl (first_cps D)).
+  { intros c Hc. destruct (Hin c Hc) as [b [Hb Ec]]; subst. rewrite to_cp_B, to_cp_D. apply Hv; auto. }
+  assert (He' : epssep (first_cps D)).
+  { intros a b Ha Hb Hab. destruct (Hin a Ha) as [a' [Ha' Ea]]. destruct (Hin b Hb) as [b' [Hb' Eb]]. subst.
+    rewrite !to_cp_B. apply He; auto. rewrite <- (almost_equal_comp _ _ _ _ (to_cp_B a') (to_cp_B b')). exact Hab. }
+  destruct (residual_values _ _ _ H Hs Hv' He') as [_ Hk]. rewrite <- Hk.
+  unfold first_cps. rewrite Vq_to_cp.
+  rewrite (lambda_perm_invariant D (sort_bars D) (j + k) t (Permutation_sym (sort_bars_perm D))). reflexivity.
+Qed.
